@@ -137,10 +137,14 @@ func runC02(ctx *core.Ctx, idx int) *core.Result {
 	res := &core.Result{}
 	r := ctx.Rand("c02", idx)
 	g := gen.NewG(r)
-	stream := idx % 4
+	stream := idx % 5
+	if stream == 4 {
+		kindCensus(ctx, idx, res, g)
+		return res
+	}
 	switch stream {
 	case 0, 1:
-		c := c02Change(idx / 4)
+		c := c02Change(idx / 5)
 		minus := c.Side('-')
 		var srcs, extra []string
 		for f := 0; f < 4; f++ {
@@ -323,4 +327,70 @@ func leakCase(ctx *core.Ctx, idx int, res *core.Result, g *gen.G) {
 		}
 		res.Violate("C02/binding-leak", why, map[string]string{"p.patch": t.patch, "in.go": F, "in2.go": F2, "actual.go": runs[0].Out, "actual2.go": runs[1].Out})
 	}
+}
+
+// exprKindFillers has at least one filler per go/ast expression node type (value and type
+// expressions): an expression metavariable has to bind every one of them, an identifier
+// metavariable only the first group.
+var exprKindFillers = []struct{ kind, text string }{
+	{"Ident", "plainName"}, {"Ident", "_"}, {"Ident", "nil"},
+	{"BasicLit", "42"}, {"BasicLit", `"str"`}, {"BasicLit", "'r'"}, {"BasicLit", "1.5i"},
+	{"CompositeLit", "T{1, 2}"}, {"CompositeLit", "[]int{}"}, {"CompositeLit", "map[string]int{\"a\": 1}"},
+	{"FuncLit", "func() {}"}, {"FuncLit", "func(a int) error { return nil }"},
+	{"ParenExpr", "(a)"}, {"ParenExpr", "(a + b)"},
+	{"SelectorExpr", "a.b"}, {"SelectorExpr", "a.b.c"},
+	{"IndexExpr", "a[0]"}, {"IndexExpr", "G[int]"},
+	{"IndexListExpr", "Map[string, int]"}, {"IndexListExpr", "pkg.Pair[string, []byte]"},
+	{"SliceExpr", "a[1:2]"}, {"SliceExpr", "a[:]"}, {"SliceExpr", "a[1:2:3]"},
+	{"TypeAssertExpr", "a.(T)"},
+	{"CallExpr", "f(1)"}, {"CallExpr", "f()"}, {"CallExpr", "f(xs...)"}, {"CallExpr", "mk[int, string](1)"},
+	{"StarExpr", "*p"}, {"StarExpr", "*pkg.T"},
+	{"UnaryExpr", "-a"}, {"UnaryExpr", "<-ch"}, {"UnaryExpr", "&x"}, {"UnaryExpr", "!ok"}, {"UnaryExpr", "^m"},
+	{"BinaryExpr", "a + b"}, {"BinaryExpr", "a && b || c"}, {"BinaryExpr", "a << 2"},
+	{"ArrayType", "[]int"}, {"ArrayType", "[3]int"},
+	{"StructType", "struct{ A int }"}, {"StructType", "struct{}"},
+	{"FuncType", "func(int) string"},
+	{"InterfaceType", "interface{ M() }"}, {"InterfaceType", "interface{}"},
+	{"MapType", "map[string]int"},
+	{"ChanType", "chan int"}, {"ChanType", "<-chan int"}, {"ChanType", "chan<- int"},
+}
+
+// kindCensus binds one metavariable, in several pattern positions, to every kind of expression.
+func kindCensus(ctx *core.Ctx, idx int, res *core.Result, g *gen.G) {
+	r := g.R
+	mk := "expression"
+	if r.Intn(3) == 0 {
+		mk = "identifier"
+	}
+	type shape struct{ minus, plus string }
+	shapes := []shape{
+		{"target(«x»)", "repl(«x», «x»)"},
+		{"target(1, «x», 2)", "repl(«x»)"},
+		{"new(«x»)", "ptrTo[«x»]()"},
+		{"tgtWrap{Field: «x»}", "tgtWrap{Other: «x»}"},
+		{"target(«x», ‹1:args›)", "repl(‹1:args›, «x»)"},
+		{"target(«x», «x»)", "repl(«x»)"},
+	}
+	sh := shapes[r.Intn(len(shapes))]
+	c := &gen.Change{Kind: "expr", Schema: "c02-kind-census-" + mk, Meta: mv2("x", mk),
+		Lines: []gen.Line{gen.L('-', sh.minus), gen.L('+', sh.plus)}}
+	var srcs, extra []string
+	for f := 0; f < 4; f++ {
+		var plants []gen.Plant
+		var kinds []string
+		perm := r.Perm(len(exprKindFillers))
+		for _, pi := range perm[:6] {
+			fl := exprKindFillers[pi]
+			fill := &gen.Fill{Meta: map[string]string{"x": fl.text}, Runs: map[string]string{"1": g.Run("args", r.Intn(3))}}
+			text := c.Substitute(sh.minus, fill)
+			if gen.PlantParses("expr", text) {
+				plants = append(plants, gen.Plant{Kind: "expr", Text: text})
+				kinds = append(kinds, fl.kind)
+				res.Ob("kind-census:"+mk+"-metavariable-vs-"+fl.kind, 1)
+			}
+		}
+		srcs = append(srcs, g.File(gen.FileOpts{Plants: plants}))
+		extra = append(extra, "census:"+strings.Join(kinds, ","))
+	}
+	semBatch(ctx, idx, res, c, srcs, extra, idx%20 == 4, "C02")
 }
